@@ -656,4 +656,134 @@ theorem concat_static_sound {i j o : SInfo} {a b t : Shape} {k : AxisK} {axis : 
 example : refConcat (some 0) [2, 3] [1, 3] = some [3, 3] := by decide
 example : transferConcat (.cts 0) ⟨.const [2, 3], .known 6⟩ ⟨.clipped [1, 3], .atMost 3⟩ = some ⟨.clipped [3, 3], .atMost 9⟩ := by decide
 
+/-! ## composition: every view type reachable by composing the modelled operations -/
+
+/-- expression trees of views; every node carries the KIND of its arguments (what the type knows) and their run-time
+    VALUE (what the object holds); leaves carry the knowledge of the array type and the index of the run-time shape -/
+inductive Prog where
+  | leaf (i : SInfo) (idx : Nat)
+  | transpose (k : Option ArrK) (axes : Option (List Nat)) (p : Prog)
+  | reshape (k : ArrK) (targ : List Int) (p : Prog)
+  | flatten (p : Prog)
+  | broadcastTo (k : ArrK) (targ : List Nat) (p : Prog)
+  | tile (k : ArrK) (reps : List Nat) (p : Prog)
+  | expandDims (k : AxisK) (axes : List Nat) (p : Prog)
+  | squeeze (p : Prog)
+  | reduce (k : AxisK) (axes : List Nat) (keepdims : Bool) (p : Prog)
+  | ufunc1 (p : Prog)
+  | ufunc2 (p q : Prog)
+  | concat (k : AxisK) (axis : Option Nat) (p q : Prog)
+
+/-- compile-time knowledge of the view type (the library's metafunctions) -/
+def Prog.static : Prog → Option SInfo
+  | .leaf i _ => some i
+  | .transpose k _ p => p.static.bind (transferTranspose k)
+  | .reshape k _ p => p.static.bind (transferReshape k)
+  | .flatten p => p.static.bind transferFlatten
+  | .broadcastTo k _ p => p.static.bind (transferBroadcastTo k)
+  | .tile k _ p => p.static.bind (transferTile k)
+  | .expandDims k _ p => p.static.bind (transferExpandDims k)
+  | .squeeze p => p.static.bind transferSqueeze
+  | .reduce k _ kd p => p.static.bind (transferReduce k kd)
+  | .ufunc1 p => p.static.bind transferUfunc1
+  | .ufunc2 p q => p.static.bind (fun i => q.static.bind (fun j => transferUfunc2 i j))
+  | .concat k _ p q => p.static.bind (fun i => q.static.bind (fun j => transferConcat k i j))
+
+/-- run-time shape of the view object (reference semantics) for the leaf shapes `env` -/
+def Prog.shape (env : Nat → Shape) : Prog → Option Shape
+  | .leaf _ idx => some (env idx)
+  | .transpose _ axes p => (p.shape env).bind (refTranspose axes)
+  | .reshape _ targ p => (p.shape env).bind (refReshape targ)
+  | .flatten p => (p.shape env).map refFlatten
+  | .broadcastTo _ targ p => (p.shape env).bind (refBroadcastTo targ)
+  | .tile _ reps p => (p.shape env).map (refTile reps)
+  | .expandDims _ axes p => (p.shape env).bind (refExpandDims axes)
+  | .squeeze p => (p.shape env).map refSqueeze
+  | .reduce _ axes kd p => (p.shape env).bind (refReduce axes kd)
+  | .ufunc1 p => p.shape env
+  | .ufunc2 p q => (p.shape env).bind (fun a => (q.shape env).bind (fun b => refBroadcast a b))
+  | .concat _ axis p q => (p.shape env).bind (fun a => (q.shape env).bind (fun b => refConcat axis a b))
+
+/-- side conditions: leaf shapes are instances of the leaf types, argument values are admitted by their kinds,
+    extents are positive where the property needs it, and the two unsound kind combinations do not occur -/
+def Prog.ok (env : Nat → Shape) : Prog → Prop
+  | .leaf i idx => i.γ (env idx)
+  | .transpose k axes p => p.ok env ∧ axesOk k axes
+  | .reshape k targ p => p.ok env ∧ targetOk k targ
+  | .flatten p => p.ok env
+  | .broadcastTo k targ p => p.ok env ∧ k.γ targ
+  | .tile k reps p => p.ok env ∧ k.γ reps
+  | .expandDims k axes p => p.ok env ∧ k.γ axes
+  | .squeeze p => p.ok env ∧ (∀ i, p.static = some i → ∀ b, i.shape ≠ .clipped b)
+  | .reduce k axes _ p => p.ok env ∧ k.γ axes ∧ (∀ s, p.shape env = some s → Pos s)
+  | .ufunc1 p => p.ok env
+  | .ufunc2 p q => p.ok env ∧ q.ok env ∧ (∀ a, p.shape env = some a → Pos a) ∧ (∀ b, q.shape env = some b → Pos b) ∧
+      (∀ i j, p.static = some i → q.static = some j → Ufunc2Dom i j)
+  | .concat k axis p q => p.ok env ∧ q.ok env ∧ concatAxisOk k axis
+
+/-- the statically inferred knowledge of ANY composed view type is true of the run-time shape of every instance -/
+theorem static_sound (env : Nat → Shape) : ∀ (p : Prog) {o : SInfo} {t : Shape},
+    p.ok env → p.static = some o → p.shape env = some t → o.γ t
+  | .leaf i idx, o, t, hok, ho, ht => by
+      simp only [Prog.static, Option.some.injEq] at ho; simp only [Prog.shape, Option.some.injEq] at ht
+      subst ho ht; exact hok
+  | .transpose k axes p, o, t, hok, ho, ht => by
+      simp only [Prog.static, Option.bind_eq_some_iff] at ho; simp only [Prog.shape, Option.bind_eq_some_iff] at ht
+      obtain ⟨i, hi, ho⟩ := ho; obtain ⟨s, hs, ht⟩ := ht
+      exact transpose_static_sound (static_sound env p hok.1 hi hs) hok.2 ht ho
+  | .reshape k targ p, o, t, hok, ho, ht => by
+      simp only [Prog.static, Option.bind_eq_some_iff] at ho; simp only [Prog.shape, Option.bind_eq_some_iff] at ht
+      obtain ⟨i, hi, ho⟩ := ho; obtain ⟨s, hs, ht⟩ := ht
+      exact reshape_static_sound (static_sound env p hok.1 hi hs) hok.2 ht ho
+  | .flatten p, o, t, hok, ho, ht => by
+      simp only [Prog.static, Option.bind_eq_some_iff] at ho; simp only [Prog.shape, Option.map_eq_some_iff] at ht
+      obtain ⟨i, hi, ho⟩ := ho; obtain ⟨s, hs, rfl⟩ := ht
+      exact flatten_static_sound (static_sound env p hok hi hs) ho
+  | .broadcastTo k targ p, o, t, hok, ho, ht => by
+      simp only [Prog.static, Option.bind_eq_some_iff] at ho; simp only [Prog.shape, Option.bind_eq_some_iff] at ht
+      obtain ⟨i, hi, ho⟩ := ho; obtain ⟨s, hs, ht⟩ := ht
+      exact broadcast_to_static_sound hok.2 ht ho
+  | .tile k reps p, o, t, hok, ho, ht => by
+      simp only [Prog.static, Option.bind_eq_some_iff] at ho; simp only [Prog.shape, Option.map_eq_some_iff] at ht
+      obtain ⟨i, hi, ho⟩ := ho; obtain ⟨s, hs, rfl⟩ := ht
+      exact tile_static_sound (static_sound env p hok.1 hi hs) hok.2 ho
+  | .expandDims k axes p, o, t, hok, ho, ht => by
+      simp only [Prog.static, Option.bind_eq_some_iff] at ho; simp only [Prog.shape, Option.bind_eq_some_iff] at ht
+      obtain ⟨i, hi, ho⟩ := ho; obtain ⟨s, hs, ht⟩ := ht
+      exact expand_dims_static_sound (static_sound env p hok.1 hi hs) hok.2 ht ho
+  | .squeeze p, o, t, hok, ho, ht => by
+      simp only [Prog.static, Option.bind_eq_some_iff] at ho; simp only [Prog.shape, Option.map_eq_some_iff] at ht
+      obtain ⟨i, hi, ho⟩ := ho; obtain ⟨s, hs, rfl⟩ := ht
+      exact squeeze_static_sound (static_sound env p hok.1 hi hs) (hok.2 i hi) ho
+  | .reduce k axes kd p, o, t, hok, ho, ht => by
+      simp only [Prog.static, Option.bind_eq_some_iff] at ho; simp only [Prog.shape, Option.bind_eq_some_iff] at ht
+      obtain ⟨i, hi, ho⟩ := ho; obtain ⟨s, hs, ht⟩ := ht
+      exact reduce_static_sound (static_sound env p hok.1 hi hs) (hok.2.2 s hs) hok.2.1 ht ho
+  | .ufunc1 p, o, t, hok, ho, ht => by
+      simp only [Prog.static, Option.bind_eq_some_iff] at ho; simp only [Prog.shape] at ht
+      obtain ⟨i, hi, ho⟩ := ho
+      exact ufunc1_static_sound (static_sound env p hok hi ht) ho
+  | .ufunc2 p q, o, t, hok, ho, ht => by
+      simp only [Prog.static, Option.bind_eq_some_iff] at ho; simp only [Prog.shape, Option.bind_eq_some_iff] at ht
+      obtain ⟨i, hi, j, hj, ho⟩ := ho; obtain ⟨a, ha, b, hb, ht⟩ := ht
+      obtain ⟨hp, hq, hpa, hpb, hdom⟩ := hok
+      exact ufunc2_static_sound (static_sound env p hp hi ha) (static_sound env q hq hj hb) (hpa a ha) (hpb b hb) (hdom i j hi hj) ht ho
+  | .concat k axis p q, o, t, hok, ho, ht => by
+      simp only [Prog.static, Option.bind_eq_some_iff] at ho; simp only [Prog.shape, Option.bind_eq_some_iff] at ht
+      obtain ⟨i, hi, j, hj, ho⟩ := ho; obtain ⟨a, ha, b, hb, ht⟩ := ht
+      exact concat_static_sound (static_sound env p hok.1 hi ha) (static_sound env q hok.2.1 hj hb) hok.2.2 ht ho
+
+/-- a depth-3 instance: `sum(transpose(add(cl[2,3], cs[1,3]), (1,0)), axis=0)` on the run-time shapes (2,2) and (1,3)
+    is refused by NumPy (2 vs 3) — on (2,3),(1,3) the result (2) is an instance of the inferred `fixedDim 1, atMost 6` -/
+example :
+    let p := Prog.reduce (.cts 0) [0] false (.transpose (some (.ct [1, 0])) (some [1, 0])
+              (.ufunc2 (.leaf ⟨.clipped [2, 3], .atMost 6⟩ 0) (.leaf ⟨.const [1, 3], .known 3⟩ 1)))
+    let env : Nat → Shape := fun n => if n = 0 then [2, 3] else [1, 3]
+    p.static = some ⟨.fixedDim 1, .atMost 6⟩ ∧ p.shape env = some [2] := by decide
+
+/-- for every composed view: the buffer the resolver sizes from `bounded_size_v` holds the whole result -/
+theorem composed_result_buffer_fits (env : Nat → Shape) (p : Prog) {o : SInfo} {t : Shape} {cap : Nat}
+    (hok : p.ok env) (ho : p.static = some o) (ht : p.shape env = some t) (hc : o.boundedSize = some cap) : prod t ≤ cap :=
+  result_buffer_fits (static_sound env p hok ho ht) hc
+
 end NmVerif.Props.C11
